@@ -335,10 +335,20 @@ func main() {
 			if s.CaseTimeout == 0 {
 				s.CaseTimeout = 30 * time.Second
 			}
+			limit := s.CaseTimeout
 			s.CaseTimeout *= 8
+			t0 := time.Now()
 			r := runGuarded(s, cases[i].ops)
+			alone := time.Since(t0)
 			s.CaseTimeout = saved
 			if len(r.Outs) == len(cases[i].ops) {
+				r.Tags = append(r.Tags, "watchdog_rerun")
+				if !slow && len(r.Fails) == 0 && alone*30 < limit {
+					// Machine load slows a case down by a small factor, not by 30x: a case that ran into the watchdog among the
+					// other workers but finishes that quickly on its own did not merely run slowly - it hung once (an
+					// intermittent deadlock or lost wake-up), which no property tolerates.
+					r.Fails = append(r.Fails, fmt.Sprintf("case did not terminate within %s among the other workers but takes %s alone: it hung intermittently", limit, alone.Round(time.Millisecond)))
+				}
 				results[i] = r
 			}
 		}
